@@ -11,7 +11,17 @@
    text character that Render.v leaves out, see Props/C04.v), and wf_entry_content is Render.wf_entry without the
    line rules and without the comments.  Ingredients: ParserShape.parse_shape (structure), ParserLex.parse_lex
    (identifiers, numbers, strings), and the joining of adjacent text elements.  What remains of wf_resource is
-   stated as the executable `lines_and_comments_ok`, and wf_content_lines assembles the three. *)
+   stated as the executable `lines_and_comments_ok`, and wf_content_lines assembles the three.
+
+   Second part (below, with Syntax/ParserLines.v), for sources in which every CR is followed by LF (no_lone_cr bs; a
+   source without CR, nocr bs, is the special case): the text elements of the tree hold no CR (parse_nocr_crlf: the CR
+   of a CR LF line end is left out by the parser), the comment lines have neither LF nor CR (parse_comment_lines_crlf),
+   and with the line rules (ParserLines.parse_lines_crlf) the whole premise follows:
+
+     parse_wf_errorfree_crlf : parse bs = Done (t, []) -> no_lone_cr bs = true -> comments_nonempty t = true ->
+                               wf_resource (map join_entry t) = true
+
+   comments_nonempty (executable) excludes exactly the zero-line comment of finding D7. *)
 From FluentV Require Import Base.Bytes Base.BytesFacts Base.Outcome Base.Utf8 Syntax.Ast Syntax.ParserModel Syntax.ParserAccounting.
 From FluentV Require Import Syntax.Render Syntax.TreeNorm Syntax.RoundTrip Syntax.SerializerProofs Syntax.ParserShape Syntax.ParserLex.
 From Coq Require Import Lia List.
@@ -314,7 +324,8 @@ Proof.
 Qed.
 
 (* ============================================================================================== *)
-(* With the line rules (Syntax/ParserLines.v): the whole premise, for CR-free sources               *)
+(* With the line rules (Syntax/ParserLines.v): the whole premise, for sources whose every CR is     *)
+(* followed by LF (CR LF line ends; CR-free sources are the special case)                           *)
 From FluentV Require Import Syntax.ParserLines.
 
 (* the comments of the tree are well-formed: at least one line (not the zero-line comment of finding D7), no CR in a
@@ -341,24 +352,43 @@ Proof.
   - destruct Hl as [Hv Ha]. rewrite Hv, (ln_attributes attrs Ha), Hc. reflexivity.
 Qed.
 
-(* ---- the texts of a parser output are slices of the source: without CR in the source, none in the texts ---- *)
+(* ---- the text elements of a parser output are slices of the source that hold no CR: the CR of a CR LF line end
+        is left out by the parser (TextElementTermination::CRLF), and there is no other CR in the source ---- *)
 Ltac skipb := eapply spec_bind; [apply spec_any | intros; exact Logic.I | let sa := fresh "sa" in let sq := fresh "sq" in intros sa sq _].
 Tactic Notation "skipn" ident(a) ident(q) := eapply spec_bind; [apply spec_any | intros; exact Logic.I | intros a q _].
 Ltac useb H := eapply spec_bind; [apply H | intros; exact Logic.I | ].
 
 Section NoCr.
 Variable bs : bytes.
-Hypothesis Hnocr : nocr bs = true.
+Hypothesis Hnlc : no_lone_cr bs = true.
 
-Lemma forallb_firstn' {A} (f : A -> bool) k l : forallb f l = true -> forallb f (firstn k l) = true.
-Proof. revert l. induction k as [|k IH]; intros l H; [reflexivity|]. destruct l as [|x l]; [reflexivity|]. cbn [forallb firstn] in *. apply andb_prop in H as [H1 H2]. rewrite H1, (IH l H2). reflexivity. Qed.
-Lemma forallb_skipn' {A} (f : A -> bool) k l : forallb f l = true -> forallb f (skipn k l) = true.
-Proof. revert l. induction k as [|k IH]; intros l H; [exact H|]. destruct l as [|x l]; [reflexivity|]. cbn [forallb skipn] in *. apply andb_prop in H as [_ H2]. apply (IH l H2). Qed.
+Lemma forallb_rev' {X} (f : X -> bool) l : forallb f (rev l) = forallb f l.
+Proof. induction l as [|x l IH]; [reflexivity|]. cbn [rev forallb]. rewrite forallb_app, IH. cbn [forallb]. rewrite andb_true_r, andb_comm. reflexivity. Qed.
 
-Lemma slice_nocr a b v : slice bs a b = Done v -> nocr_text v = true.
+(* no CR among the bytes [s, e) of the source *)
+Definition rng_nocr (s e : nat) : Prop := forall i b, s <= i -> i < e -> nth_error bs i = Some b -> N.eqb b 13 = false.
+
+Lemma nth_error_firstn_lt {A} (l : list A) : forall k i, i < k -> nth_error (firstn k l) i = nth_error l i.
 Proof.
-  unfold slice. destruct (Nat.leb a b && Nat.leb b (length bs) && is_char_boundary bs a && is_char_boundary bs b); [|discriminate].
-  intros H. injection H as <-. unfold nocr_text. apply forallb_firstn', forallb_skipn'. exact Hnocr.
+  induction l as [|x l IH]; intros k i H; [rewrite firstn_nil; reflexivity|]. destruct k as [|k]; [lia|].
+  destruct i as [|i]; [reflexivity|]. cbn [firstn nth_error]. apply IH. lia.
+Qed.
+
+Lemma seg_rng s e v : seg bs s e v -> nocr_l v -> rng_nocr s e.
+Proof.
+  intros (H1 & H2 & H3) Hv i b Hs He Hb. apply Hv. rewrite <- H3. apply (nth_error_In _ (i - s)).
+  rewrite nth_error_firstn_lt by lia. rewrite nth_error_skipn_add. replace (s + (i - s)) with i by lia. exact Hb.
+Qed.
+
+Lemma rng_sub s e s' : rng_nocr s e -> s <= s' -> rng_nocr s' e.
+Proof. intros H Hs i b H1 H2 Hb. apply (H i b ltac:(lia) H2 Hb). Qed.
+
+Lemma slice_rng s e v : rng_nocr s e -> slice bs s e = Done v -> nocr_text v = true.
+Proof.
+  intros Hr. unfold slice. destruct (Nat.leb s e && Nat.leb e (length bs) && is_char_boundary bs s && is_char_boundary bs e); [|discriminate].
+  intros H. injection H as <-. unfold nocr_text. apply forallb_forall. intros b Hb. apply In_nth_error in Hb as [i Hi].
+  destruct (nth_error_firstn_some _ _ _ _ Hi) as [Hlt Hi']. rewrite nth_error_skipn_add in Hi'.
+  rewrite (Hr (s + i) b ltac:(lia) ltac:(lia) Hi'). reflexivity.
 Qed.
 
 Lemma trim_nocr v : nocr_text v = true -> nocr_text (trim_end v) = true.
@@ -366,7 +396,7 @@ Proof.
   intros H. destruct (trim_end_prefix v) as [w E]. unfold nocr_text in *. rewrite E, forallb_app in H. apply andb_prop in H as [H _]. exact H.
 Qed.
 
-Definition phn (ph : placeholder) : Prop := match ph with PHPlaceable e => nocr_expr e = true | PHText _ _ _ _ => True end.
+Definition phn (ph : placeholder) : Prop := match ph with PHPlaceable e => nocr_expr e = true | PHText s e _ _ => rng_nocr s e end.
 Definition stn (st : pstate) : Prop := Forall phn (elements st).
 
 Lemma nc_finish_element lnb ci i ph p : phn ph ->
@@ -374,9 +404,11 @@ Lemma nc_finish_element lnb ci i ph p : phn ph ->
 Proof.
   intros Hph. destruct ph as [e | s e ind r]; unfold finish_element.
   - apply spec_ret. exact Hph.
-  - destruct (Nat.eqb _ e); [apply spec_ret; exact Logic.I|].
+  - set (s' := if is_line_start r then match ci with Some c => s + Nat.min ind c | None => s + ind end else s).
+    assert (Hs' : s <= s') by (unfold s'; destruct (is_line_start r); [destruct ci|]; lia).
+    destruct (Nat.eqb s' e); [apply spec_ret; exact Logic.I|].
     eapply spec_bind; [apply sp_source_slice | intros ? ? []|]. intros v q [_ Hv]. apply spec_ret. cbn [nocr_element].
-    pose proof (slice_nocr _ _ _ Hv) as Hn. destruct (Nat.eqb lnb i); [apply trim_nocr, Hn | exact Hn].
+    pose proof (slice_rng _ _ _ (rng_sub _ _ _ Hph Hs') Hv) as Hn. destruct (Nat.eqb lnb i); [apply trim_nocr, Hn | exact Hn].
 Qed.
 
 Lemma nc_finish_elements lnb ci : forall phs i p, Forall phn phs ->
@@ -387,9 +419,6 @@ Proof.
   useb (nc_finish_element lnb ci i ph p Hph). intros x q Hx. useb (IH (S i) q Hr). intros xs q2 Hxs. apply spec_ret.
   destruct x as [x|]; [cbn [forallb]; rewrite Hx, Hxs; reflexivity | exact Hxs].
 Qed.
-
-Lemma forallb_rev' {X} (f : X -> bool) l : forallb f (rev l) = forallb f l.
-Proof. induction l as [|x l IH]; [reflexivity|]. cbn [rev forallb]. rewrite forallb_app, IH. cbn [forallb]. rewrite andb_true_r, andb_comm. reflexivity. Qed.
 
 Lemma drop_tail_rev_nocr R : forallb nocr_element R = true -> forallb nocr_element (drop_empty_tail_rev R) = true.
 Proof.
@@ -411,15 +440,36 @@ Proof.
   destruct (rev (drop_empty_tail_rev (rev els))) as [|x r]; [exact Logic.I|]. cbn [nocr_pattern]. rewrite nocr_elements_eq. exact H.
 Qed.
 
-Lemma text_step_n st slice_start indent ts : stn st -> stn (text_step st slice_start indent ts).
+Lemma text_step_n st slice_start indent start end_ nb term : stn st -> rng_nocr slice_start end_ -> slice_start <= start ->
+  stn (text_step st slice_start indent (start, end_, nb, term)).
 Proof.
-  intros Hst. destruct ts as [[[start end_] nonblank] term]. unfold text_step, stn in *.
-  assert (Hnew : Forall phn (PHText slice_start end_ indent (role st) :: elements st)) by (constructor; [exact Logic.I | exact Hst]).
-  assert (Hnew0 : Forall phn (PHText start end_ 0 (role st) :: elements st)) by (constructor; [exact Logic.I | exact Hst]).
+  intros Hst Hr Hle. unfold text_step, stn in *.
+  assert (Hnew : Forall phn (PHText slice_start end_ indent (role st) :: elements st)) by (constructor; [exact Hr | exact Hst]).
+  assert (Hnew0 : Forall phn (PHText start end_ 0 (role st) :: elements st)) by (constructor; [exact (rng_sub _ _ _ Hr Hle) | exact Hst]).
   destruct (negb (Nat.eqb start end_)).
-  - destruct (negb (is_line_start (role st)) || nonblank || match term with TLineFeed => true | _ => false end); cbn [elements]; [|assumption].
-    destruct (is_line_start (role st) && negb nonblank); assumption.
+  - destruct (negb (is_line_start (role st)) || nb || match term with TLineFeed => true | _ => false end); cbn [elements]; [|assumption].
+    destruct (is_line_start (role st) && negb nb); assumption.
   - destruct (is_line_start (role st) && match term with TPlaceableStart => true | _ => false end); cbn [elements]; assumption.
+Qed.
+
+Lemma nocr_sp k : nocr_l (sp k).
+Proof. intros b Hb. apply repeat_spec in Hb. subst b. reflexivity. Qed.
+Lemma nocr_l_app a b : nocr_l a -> nocr_l b -> nocr_l (a ++ b).
+Proof. intros Ha Hb x Hx. apply in_app_or in Hx as [H | H]; [apply Ha, H | apply Hb, H]. Qed.
+
+(* the bytes that the prologue and the text slice pass over hold no CR *)
+Lemma pro_slice_rng r p k q ts q' : pro_post bs r p (Some k) q -> slice_post bs (k + p) ts q' ->
+  let '(start, end_, nb, term) := ts in start = k + p /\ rng_nocr p end_.
+Proof.
+  intros (_ & _ & Hpro) Hsl. destruct ts as [[[start end_] nb] term]. cbn [slice_post] in Hsl.
+  destruct Hsl as (-> & _ & text & _ & Htcr & _ & Hterm). split; [reflexivity|].
+  assert (Hx : exists X, seg bs (k + p) end_ X /\ nocr_l X).
+  { destruct term; [exists (text ++ [10%N]); split; [exact Hterm | apply nocr_l_app; [exact Htcr | intros b [<- | []]; reflexivity]] | | |];
+      exists text; (split; [apply Hterm | exact Htcr]). }
+  destruct Hx as (X & HX & HXcr).
+  destruct (is_line_start r).
+  - destruct Hpro as (_ & Hsp & _). apply (seg_rng p end_ (sp k ++ X) (seg_app bs Hnlc p (k + p) end_ _ _ Hsp HX)). apply nocr_l_app; [apply nocr_sp | exact HXcr].
+  - subst k. apply (seg_rng _ _ _ HX HXcr).
 Qed.
 
 Definition NAo : option call_args -> nat -> Prop := fun r _ => match r with Some ca => nocr_args ca = true | None => True end.
@@ -445,11 +495,19 @@ Proof.
       skipb. skipb. skipn r qr.
       useb (IH2 (PState [] 0 None None r) qr ltac:(constructor)). intros st q Hst. apply (nc_finish_pattern st q Hst).
     + intros st p Hst. rewrite pattern_loop_S.
-      skipn p0 q0. destruct (negb (Nat.ltb p0 (length_ bs))); [apply spec_ret; exact Hst|].
-      skipn brace q1. destruct brace.
-      * useb (IH3 q1). intros e q2 He. apply IH2. constructor; [exact He | exact Hst].
-      * skipn ss q2. skipn pro q3. destruct pro as [indent|]; [|apply spec_ret; exact Hst].
-        skipn ts q4. destruct ts as [[[start end_] nb] term]. apply IH2. apply (text_step_n st ss indent (start, end_, nb, term) Hst).
+      eapply spec_bind; [apply sp_get_ptr | intros ? ? []|]. intros p0 q0 [-> ->].
+      destruct (Nat.ltb p (length_ bs)) eqn:Hlt; cbn [negb]; [|apply spec_ret; exact Hst].
+      apply Nat.ltb_lt in Hlt. unfold length_ in Hlt.
+      eapply spec_bind; [apply sp_take_byte_if | intros ? ? []|]. intros brace q1 Hbrace.
+      destruct Hbrace as [(-> & -> & Hb) | (-> & -> & Hb)].
+      * useb (IH3 (S p)). intros e q2 He. apply IH2. constructor; [exact He | exact Hst].
+      * eapply spec_bind; [apply sp_get_ptr | intros ? ? []|]. intros ss q2 [-> ->].
+        useb (st_prologue bs Hnlc (role st) p Hlt). intros pro q3 Hpro. destruct pro as [indent|]; [|apply spec_ret; exact Hst].
+        assert (Hq3 : q3 = indent + p /\ indent + p <= length bs) by (destruct Hpro as (H1 & H2 & _); split; [exact H1 | lia]).
+        destruct Hq3 as [-> Hle].
+        useb (st_text_slice bs Hnlc (indent + p) Hle). intros ts q4 Hsl.
+        pose proof (pro_slice_rng _ _ _ _ ts q4 Hpro Hsl) as Hr. destruct ts as [[[start end_] nb] term]. destruct Hr as [-> Hr].
+        apply IH2. apply (text_step_n st p indent (indent + p) end_ nb term Hst Hr). lia.
     + intros p. cbn [get_placeable]. fold_knot bs.
       skipn u1 q1. useb (IH4 q1). intros e q2 He. skipb. skipb.
       destruct e as [s vs | i]; [apply spec_ret; exact He|].
@@ -587,13 +645,16 @@ Proof.
 Qed.
 
 (* ---- comment lines: slices up to a line end, hence without LF, and without CR ---- *)
-Lemma line_len_no_lf k : forall p i b, i < line_len bs k p -> nth_error bs (p + i) = Some b -> N.eqb b 10 = false.
+Lemma line_len_no_lf k : forall p i b, i < line_len bs k p -> nth_error bs (p + i) = Some b -> N.eqb b 10 = false /\ N.eqb b 13 = false.
 Proof.
   induction k as [|k IH]; intros p i b Hi Hb; [cbn in Hi; lia|]. cbn [line_len] in Hi. unfold byte_at in Hi.
   destruct (nth_error bs p) as [c|] eqn:Ec; [|lia].
-  destruct (N.eqb c c_lf) eqn:Elf; [lia|]. destruct (N.eqb c c_cr && is_byte_at bs c_lf (S p)); [lia|].
-  destruct i as [|i]; [rewrite Nat.add_0_r in Hb; rewrite Ec in Hb; injection Hb as <-; exact Elf|].
-  apply (IH (S p) i b ltac:(lia)). rewrite <- Hb. f_equal. lia.
+  destruct (N.eqb c c_lf) eqn:Elf; [lia|]. destruct (N.eqb c c_cr && is_byte_at bs c_lf (S p)) eqn:Ecr; [lia|].
+  destruct i as [|i]; [|apply (IH (S p) i b ltac:(lia)); rewrite <- Hb; f_equal; lia].
+  rewrite Nat.add_0_r in Hb. rewrite Ec in Hb. injection Hb as <-. split; [exact Elf|].
+  (* a CR here would be followed by LF: the line would have ended *)
+  destruct (N.eqb c 13) eqn:E13; [|reflexivity]. exfalso. apply N.eqb_eq in E13. subst c.
+  pose proof (no_lone_cr_at bs Hnlc p Ec) as Hn. unfold is_byte_at, byte_at in Ecr. rewrite Hn in Ecr. discriminate Ecr.
 Qed.
 
 Definition cl_ok (c : comment) : Prop := forallb wf_comment_line (content c) = true.
@@ -606,8 +667,7 @@ Proof.
   injection E as <-. unfold wf_comment_line. apply forallb_forall. intros b Hb. apply In_nth_error in Hb as [i Hi].
   destruct (nth_error_firstn_some _ _ _ _ Hi) as [Hlt Hi']. rewrite nth_error_skipn_add in Hi'.
   replace (len + p - p) with len in Hlt by lia.
-  rewrite (line_len_no_lf _ p i b Hlt Hi'). unfold nocr in Hnocr. rewrite forallb_forall in Hnocr.
-  pose proof (Hnocr b (nth_error_In _ _ Hi')) as Hc. apply negb_true_iff in Hc. rewrite Hc. reflexivity.
+  destruct (line_len_no_lf _ p i b Hlt Hi') as [H10 H13]. rewrite H10, H13. reflexivity.
 Qed.
 
 Lemma nc_comment_loop n : forall lvl content0 p, forallb wf_comment_line content0 = true ->
@@ -696,12 +756,15 @@ Proof. unfold parse_m. skipn u q. apply nc_parse_loop. reflexivity. Qed.
 
 End NoCr.
 
-Theorem parse_comment_lines bs t errs : nocr bs = true -> parse bs = Done (t, errs) -> Forall cl_entry t.
+Theorem parse_comment_lines_crlf bs t errs : no_lone_cr bs = true -> parse bs = Done (t, errs) -> Forall cl_entry t.
 Proof.
   unfold parse. intros Hn H. pose proof (parse_m_comments bs Hn (fuel_for bs)) as Hs. unfold spec in Hs.
   destruct (parse_m bs (fuel_for bs) 0) as [[t' e'] q | e q | m |]; cbn [to_outcome] in H; try discriminate H.
   injection H as -> ->. exact Hs.
 Qed.
+
+Theorem parse_comment_lines bs t errs : nocr bs = true -> parse bs = Done (t, errs) -> Forall cl_entry t.
+Proof. intros Hn. apply parse_comment_lines_crlf, nocr_no_lone, Hn. Qed.
 
 (* what is left: no comment without a line (the zero-line comment of finding D7), executable *)
 Definition comment_nonempty (c : comment) : bool := negb (match content c with [] => true | _ => false end).
@@ -713,27 +776,39 @@ Definition comments_nonempty_entry (e : entry) : bool :=
   end.
 Definition comments_nonempty (t : resource) : bool := forallb comments_nonempty_entry t.
 
-Lemma comments_ok_of bs t errs : nocr bs = true -> parse bs = Done (t, errs) -> comments_nonempty t = true -> comments_ok t = true.
+Lemma comments_ok_of_crlf bs t errs : no_lone_cr bs = true -> parse bs = Done (t, errs) -> comments_nonempty t = true -> comments_ok t = true.
 Proof.
-  intros Hn Hp Hne. pose proof (parse_comment_lines bs t errs Hn Hp) as Hcl. unfold comments_ok, comments_nonempty in *.
+  intros Hn Hp Hne. pose proof (parse_comment_lines_crlf bs t errs Hn Hp) as Hcl. unfold comments_ok, comments_nonempty in *.
   rewrite forallb_forall in *. rewrite Forall_forall in Hcl. intros e He. specialize (Hne e He). specialize (Hcl e He).
   destruct e as [id v a [c|] | id v a [c|] | c | c | c | j]; cbn [comments_ok_entry comments_nonempty_entry cl_entry] in *; try reflexivity;
     unfold wf_comment, comment_nonempty, cl_ok in *; rewrite Hne, Hcl; reflexivity.
 Qed.
 
-Theorem parse_nocr bs t errs : nocr bs = true -> parse bs = Done (t, errs) -> nocr_resource t = true.
+Lemma comments_ok_of bs t errs : nocr bs = true -> parse bs = Done (t, errs) -> comments_nonempty t = true -> comments_ok t = true.
+Proof. intros Hn. apply comments_ok_of_crlf, nocr_no_lone, Hn. Qed.
+
+(* no text element of a parser output holds a CR, if every CR of the source is followed by LF *)
+Theorem parse_nocr_crlf bs t errs : no_lone_cr bs = true -> parse bs = Done (t, errs) -> nocr_resource t = true.
 Proof.
   unfold parse. intros Hn H. pose proof (parse_m_nocr bs Hn (fuel_for bs)) as Hs. unfold spec in Hs.
   destruct (parse_m bs (fuel_for bs) 0) as [[t' e'] q | e q | m |]; cbn [to_outcome] in H; try discriminate H.
   injection H as -> ->. exact Hs.
 Qed.
 
-(* every error-free parse of a source without CR yields a tree that (joined) is well-formed in the sense of the
-   grammar, provided its comments are: the premise of the C04 round trip holds *)
-Theorem parse_wf_errorfree bs t : parse bs = Done (t, []) -> nocr bs = true -> comments_nonempty t = true ->
+Theorem parse_nocr bs t errs : nocr bs = true -> parse bs = Done (t, errs) -> nocr_resource t = true.
+Proof. intros Hn. apply parse_nocr_crlf, nocr_no_lone, Hn. Qed.
+
+(* every error-free parse of a source in which every CR is followed by LF (CR LF line ends, or no CR at all) yields
+   a tree that (joined) is well-formed in the sense of the grammar, provided its comments are: the premise of the C04
+   round trip holds.  A lone CR is excluded: it is a text character that Render.v leaves out (see Props/C04.v). *)
+Theorem parse_wf_errorfree_crlf bs t : parse bs = Done (t, []) -> no_lone_cr bs = true -> comments_nonempty t = true ->
   wf_resource (map join_entry t) = true.
 Proof.
-  intros Hp Hn Hne. pose proof (comments_ok_of bs t [] Hn Hp Hne) as Hc. pose proof (parse_nocr bs t [] Hn Hp) as Hnt. apply (parse_wf_from_lines bs t Hp Hnt).
-  pose proof (parse_lines bs t [] Hn Hp) as Hl. apply forallb_forall. intros e' He'. apply in_map_iff in He' as (e & <- & He).
+  intros Hp Hn Hne. pose proof (comments_ok_of_crlf bs t [] Hn Hp Hne) as Hc. pose proof (parse_nocr_crlf bs t [] Hn Hp) as Hnt. apply (parse_wf_from_lines bs t Hp Hnt).
+  pose proof (parse_lines_crlf bs t [] Hn Hp) as Hl. apply forallb_forall. intros e' He'. apply in_map_iff in He' as (e & <- & He).
   rewrite Forall_forall in Hl. unfold comments_ok in Hc. rewrite forallb_forall in Hc. apply (ln_entry_lines e (Hl e He) (Hc e He)).
 Qed.
+
+Theorem parse_wf_errorfree bs t : parse bs = Done (t, []) -> nocr bs = true -> comments_nonempty t = true ->
+  wf_resource (map join_entry t) = true.
+Proof. intros Hp Hn. apply (parse_wf_errorfree_crlf bs t Hp), nocr_no_lone, Hn. Qed.
